@@ -2,6 +2,7 @@
 from __future__ import annotations
 
 import itertools
+import json
 import warnings
 
 import pymbolic.primitives as p
@@ -706,6 +707,92 @@ def nearest(names, implemented, variant):
     return ("unsupported", None)
 
 
+class HandlerErrorsStream(Stream):
+    """What a handler RAISES is the caller's business: it must leave the mapper call unchanged (same
+    exception object), and the dispatcher must not take it for "no such handler" - no other
+    handler, not the ancestor's, not the unsupported-expression hook, may run for that node.
+    Exceptions of the kinds a dispatch routine itself might catch while looking for a handler
+    (AttributeError incl. a genuinely missing attribute inside the handler, KeyError, LookupError,
+    TypeError, NotImplementedError, a user exception) x node hierarchies of depth 1-3 x which
+    levels the mapper implements x `__call__` / `rec` / cached.  Oracle only."""
+    name = "dispatch-handler-errors"
+    has_model = False
+    KINDS = ["AttributeError", "AttributeError-missing-attribute", "AttributeError-on-node", "KeyError",
+             "LookupError", "TypeError", "NotImplementedError", "UserError", "StopIteration"]
+
+    def cases(self, rng, tier):
+        names = ["NodeA", "MidNodeB", "LeafC"]
+        hows = ["decorated", "legacy"]
+        for depth in (1, 2, 3):
+            for how in itertools.product(hows, repeat=depth):
+                chain = [[names[i], how[i], f"map_lvl{i}"] for i in range(depth)]
+                for kind in self.KINDS:
+                    for variant in ("call", "rec", "cached"):
+                        # (`rec_fallback` by design starts at the ancestors: not a variant here)
+                        # the raising handler is the node's own (most derived); the mapper also
+                        # implements some ancestors' handlers, which must stay silent
+                        for others in ([], list(range(depth - 1))):
+                            if tier == "quick" and depth == 3 and rng.random() < 0.5:
+                                continue
+                            yield {"chain": chain, "kind": kind, "variant": variant, "others": others}
+
+    def run_impl(self, pl):
+        return "(oracle-only)"
+
+    def oracle(self, pl):
+        from pymbolic.mapper import CachedMapper, Mapper
+        cls = build_chain([tuple(c) for c in pl["chain"]])
+        depth = len(pl["chain"])
+        log = []
+
+        class UserError(Exception):
+            pass
+
+        def raiser(self, expr, *a, **k):
+            log.append("own")
+            kind = pl["kind"]
+            if kind == "AttributeError-missing-attribute":
+                return self.no_such_attribute_of_the_mapper      # a real bug in a handler
+            if kind == "AttributeError-on-node":
+                return expr.no_such_field_of_the_node
+            exc = {"AttributeError": AttributeError("raised by the handler"), "KeyError": KeyError("k"),
+                   "LookupError": LookupError("l"), "TypeError": TypeError("t"),
+                   "NotImplementedError": NotImplementedError("n"), "UserError": UserError("u"),
+                   "StopIteration": StopIteration("s")}[kind]
+            raiser.exc = exc
+            raise exc
+        base = CachedMapper if pl["variant"] == "cached" else Mapper
+        body = {f"map_lvl{depth - 1}": raiser,
+                "handle_unsupported_expression": lambda self, expr, *a, **k: log.append("hook")}
+        for i in pl["others"]:
+            body[f"map_lvl{i}"] = (lambda i: lambda self, expr, *a, **k: log.append(f"ancestor{i}"))(i)
+        M = type("M", (base,), body)
+        m, node = M(), cls()
+        call = {"call": m, "cached": m, "rec": m.rec, "fallback": m.rec_fallback}[pl["variant"]]
+        want = pl["kind"].split("-")[0]
+        try:
+            r = call(node)
+        except BaseException as ex:     # noqa: BLE001
+            got = type(ex).__name__
+            same = getattr(raiser, "exc", None) is None or ex is raiser.exc
+            if got != want or not same or log != ["own"]:
+                return Failure(f"handler-error-not-propagated:{pl['kind']}:{pl['variant']}",
+                               f"the node's own handler raised {want}; the call raised {got} "
+                               f"({'the same object' if same else 'ANOTHER exception'}), handlers run: {log}", pl)
+            return None
+        return Failure(f"handler-error-swallowed:{pl['kind']}:{pl['variant']}",
+                       f"the node's own handler raised {want}; the call RETURNED {r!r}, handlers run: {log}", pl)
+
+    def shrink(self, pl):
+        if len(pl["chain"]) > 1:
+            yield {**pl, "chain": pl["chain"][1:], "others": [i - 1 for i in pl["others"] if i > 0]}
+        if pl["others"]:
+            yield {**pl, "others": pl["others"][:-1]}
+
+    def nontrivial_key(self, pl, model, impl):
+        return json.dumps(pl, sort_keys=True)
+
+
 class DispatchHistoryStream(Stream):
     """Dispatch is a function of (mapper, node class) alone.  Inside ONE process, in a chosen
     ORDER, several mapper classes (handler subsets, plain / cached, also inheriting from each
@@ -1200,7 +1287,7 @@ PROP = Prop(
     streams=[WalkStream(), CombineStream(), DispatchStream(), NamesStream(), FieldsStream(),
              CallbackStream(), DispatchHistoryStream(), CollectorHistoryStream(),
              ForeignRegistryStream(), CachedArgsStream(), ArrayTraversalStream(),
-             ArrayWalkModelStream(), UserNodesStream()],
+             ArrayWalkModelStream(), UserNodesStream(), HandlerErrorsStream()],
     probes=[probes],
     trusted_base=["Lean 4.33 kernel; axioms propext, Classical.choice, Quot.sound only",
                   "harness/props/c04.py (instrumented mapper subclasses, dynamic class hierarchies)",
